@@ -48,10 +48,6 @@ pub fn fields(local: i128) -> Fields {
     }
 }
 
-pub fn local_instant(day: i64, hour: u32, minute: u32, second: u32, subsec: u32) -> i128 {
-    day as i128 * D + (hour as i128 * 3600 + minute as i128 * 60 + second as i128) * NS + subsec as i128
-}
-
 /// Builds the astrolabe value for UTC instant `i` (must be representable) through the public API:
 /// `from_timestamp(floor seconds)` then `add_nanos(sub-second)`.
 pub fn mk(i: i128) -> DateTime {
